@@ -911,6 +911,169 @@ theorem session_swap (showProc : Bool) (s : RState) (calls : List Call) (i j : N
     List.cons.injEq, and_true] at h h'
   exact swap_table_generated plain showProc b c rows rows' h h'
 
+/-! ## every metric of a task is listed on its own account (no guard keyed on another metric) -/
+
+/-- **scope_rows_count**: in one scope (one task, the global attributes, one list entry) the number of rows is the
+    number of active call sites whose metric is present in both races – each of them once, nothing else. -/
+theorem scope_rows_count (plain showProc : Bool) (specs : List RowSpec) (task : Str) (b c : Scope) :
+    (scopeRows plain showProc specs task b c).length =
+      ((specs.filter (active showProc)).filter (bothPresent b c)).length := by
+  unfold scopeRows
+  generalize specs.filter (active showProc) = l
+  induction l with
+  | nil => rfl
+  | cons s rest ih =>
+    cases hb : lookup s.key b.vals with
+    | none =>
+      have hl : line plain s task b c = none := by
+        cases hc : lookup s.key c.vals <;> simp only [line, hb, hc]
+      have hq : bothPresent b c s = false := by simp [bothPresent, hb]
+      simp [List.filterMap_cons, List.filter_cons, hl, hq, ih]
+    | some bv =>
+      cases hc : lookup s.key c.vals with
+      | none =>
+        have hl : line plain s task b c = none := by simp only [line, hb, hc]
+        have hq : bothPresent b c s = false := by simp [bothPresent, hc]
+        simp [List.filterMap_cons, List.filter_cons, hl, hq, ih]
+      | some cv =>
+        have hl : line plain s task b c = some (mkRow plain s task (unitOf s.unit b) bv cv) := by simp only [line, hb, hc]
+        have hq : bothPresent b c s = true := by simp [bothPresent, hb, hc]
+        simp [List.filterMap_cons, List.filter_cons, hl, hq, ih]
+
+/-- **row_depends_only_on_own_metric**: whether (and how) a call site is listed depends on the two values of that
+    very metric (and its unit) only – two pairs of records that agree on it and differ in anything else (say: the
+    throughput statistics are `None` in one of them) give the same row. -/
+theorem row_depends_only_on_own_metric (plain : Bool) (s : RowSpec) (task : Str) (b b' c c' : Scope)
+    (hb : lookup s.key b.vals = lookup s.key b'.vals) (hc : lookup s.key c.vals = lookup s.key c'.vals)
+    (hu : unitOf s.unit b = unitOf s.unit b') :
+    line plain s task b c = line plain s task b' c' := by
+  simp only [line, hb, hc, hu]
+
+/-- **task_metric_listed**: with pairwise distinct task names, a metric that the baseline record and the contender
+    record of one task both have is listed for that task – no hypothesis on any other metric of the task. -/
+theorem task_metric_listed (plain showProc : Bool) (specs : List RowSpec) (b c : Stats)
+    (hb : (b.tasks.map TaskM.name).Nodup) (hc : (c.tasks.map TaskM.name).Nodup)
+    (bt ct : TaskM) (hbt : bt ∈ b.tasks) (hct : ct ∈ c.tasks) (hn : ct.name = bt.name)
+    (s : RowSpec) (hs : s ∈ specs) (ha : active showProc s = true) (bv cv : Val)
+    (hbv : lookup s.key bt.sc.vals = some bv) (hcv : lookup s.key ct.sc.vals = some cv) :
+    mkRow plain s bt.name (unitOf s.unit bt.sc) bv cv ∈ taskRows plain showProc specs b c := by
+  rw [task_rows_own_values plain showProc specs b c hb hc]
+  exact ⟨bt, hbt, ct, hct, hn,
+    (rows_iff_both_present plain showProc specs bt.name bt.sc ct.sc _).mpr ⟨s, hs, ha, bv, cv, hbv, hcv, rfl⟩⟩
+
+/-- **task_rows_exactly_once**: with pairwise distinct task names in the baseline, the rows of the table's task
+    block that carry the name of a baseline task are exactly the rows of that task's own scope: as many as there
+    are active call sites present in both records (`scope_rows_count`), in particular 0 for a task the contender
+    lacks – and never fewer because some other metric of the task is missing. -/
+theorem task_rows_exactly_once (plain showProc : Bool) (specs : List RowSpec) (b c : Stats)
+    (hb : (b.tasks.map TaskM.name).Nodup) (t : TaskM) (ht : t ∈ b.tasks) :
+    rowsOfTask t.name (taskRows plain showProc specs b c) =
+      match findTask t.name c.tasks with
+      | some ct => scopeRows plain showProc specs t.name t.sc ct.sc
+      | none => [] := by
+  have hrow : ∀ (n : Str) (x y : Scope), ∀ r ∈ scopeRows plain showProc specs n x y, r.task = n := by
+    intro n x y r hr
+    obtain ⟨s, _, _, bv, cv, _, _, rfl⟩ := (rows_iff_both_present plain showProc specs n x y r).mp hr
+    rfl
+  have key : ∀ (l : List TaskM), (l.map TaskM.name).Nodup → (∀ u ∈ l, findTask u.name b.tasks = some u) → t ∈ l →
+      rowsOfTask t.name (l.flatMap (fun u =>
+        match findTask u.name c.tasks, findTask u.name b.tasks with
+        | some ct, some bt => scopeRows plain showProc specs u.name bt.sc ct.sc
+        | _, _ => [])) =
+      match findTask t.name c.tasks with
+      | some ct => scopeRows plain showProc specs t.name t.sc ct.sc
+      | none => [] := by
+    intro l
+    induction l with
+    | nil => intro _ _ h; cases h
+    | cons u rest ih =>
+      intro hnd hown hmem
+      have hu := hown u (List.mem_cons_self ..)
+      simp only [List.map_cons, List.nodup_cons] at hnd
+      simp only [List.flatMap_cons, rowsOfTask, List.filter_append]
+      by_cases hut : u = t
+      · subst hut
+        have hrest : List.filter (fun r => decide (r.task = u.name)) (rest.flatMap (fun u =>
+            match findTask u.name c.tasks, findTask u.name b.tasks with
+            | some ct, some bt => scopeRows plain showProc specs u.name bt.sc ct.sc
+            | _, _ => [])) = [] := by
+          rw [List.filter_eq_nil_iff]
+          intro r hr
+          simp only [List.mem_flatMap] at hr
+          obtain ⟨v, hv, hrv⟩ := hr
+          have hvn : v.name ≠ u.name := fun e => hnd.1 (List.mem_map.mpr ⟨v, hv, e⟩)
+          cases h1 : findTask v.name c.tasks <;> cases h2 : findTask v.name b.tasks <;> simp [h1, h2] at hrv
+          have := hrow _ _ _ r hrv
+          simp [this, hvn]
+        rw [hrest, List.append_nil, hu]
+        cases h1 : findTask u.name c.tasks with
+        | none => simp
+        | some ct =>
+          simp only
+          rw [List.filter_eq_self]
+          intro r hr
+          simp [hrow _ _ _ r hr]
+      · have hmem' : t ∈ rest := by
+          rcases List.mem_cons.mp hmem with h | h
+          · exact absurd h.symm hut
+          · exact h
+        have htn : u.name ≠ t.name := fun e => hnd.1 (List.mem_map.mpr ⟨t, hmem', e.symm⟩)
+        have hhead : List.filter (fun r => decide (r.task = t.name))
+            (match findTask u.name c.tasks, findTask u.name b.tasks with
+            | some ct, some bt => scopeRows plain showProc specs u.name bt.sc ct.sc
+            | _, _ => []) = [] := by
+          rw [List.filter_eq_nil_iff]
+          intro r hr
+          cases h1 : findTask u.name c.tasks <;> cases h2 : findTask u.name b.tasks <;> simp [h1, h2] at hr
+          have := hrow _ _ _ r hr
+          simp [this, htn]
+        rw [hhead, List.nil_append]
+        exact ih hnd.2 (fun v hv => hown v (List.mem_cons_of_mem _ hv)) hmem'
+  unfold taskRows
+  exact key b.tasks hb (fun u hu => findTask_of_nodup hb hu) ht
+
+/-- `summary_stats` stores the four throughput statistics together or not at all -/
+theorem summary_stats_all_or_none (mean median : Option Val) (stats : Option (Val × Val)) (unit : Option Str) :
+    (∃ mn me md mx, mean = some me ∧ median = some md ∧ stats = some (mn, mx) ∧
+      (summaryStats mean median stats unit).vals = [(kTpMin, mn), (kTpMean, me), (kTpMedian, md), (kTpMax, mx)]) ∨
+    ((mean = none ∨ median = none ∨ stats = none) ∧ (summaryStats mean median stats unit).vals = []) := by
+  cases mean <;> cases median <;> cases stats <;> simp [summaryStats]
+
+/-- the error-rate call site of the generated table -/
+def errSpec : RowSpec :=
+  ⟨kErrorRate, ['e', 'r', 'r', 'o', 'r', ' ', 'r', 'a', 't', 'e'], .const ['%'], false, .times100, false, true⟩
+
+/-- the generated table has a per-task block that contains the error-rate call site (not behind `output.processingtime`) -/
+theorem error_rate_in_task_block :
+    (CompareRows.blocks.any (fun blk => match blk with
+      | .tasks r => decide (errSpec ∈ r)
+      | _ => false)) = true := by decide
+
+/-- **error_rate_listed_without_throughput**: records as `GlobalStatsCalculator` writes them (`opRecord`): whatever the
+    throughput statistics of the task are in the two races – in particular all `None` in one or both
+    (`summaryStats none none none`, a task without samples of type normal, e.g. every request failed) – and whatever
+    percentiles exist, the comparison lists the task's error rate with both stored values. -/
+theorem error_rate_listed_without_throughput (plain showProc : Bool) (b c : Stats)
+    (hb : (b.tasks.map TaskM.name).Nodup) (hc : (c.tasks.map TaskM.name).Nodup)
+    (n opb opc : Str) (tpb tpc : Scope) (tb tc : List (Str × Val)) (eb ec : Val)
+    (hbt : opRecord n opb tpb tb eb ∈ b.tasks) (hct : opRecord n opc tpc tc ec ∈ c.tasks)
+    (rows : List Row) (h : metricsTable CompareRows.blocks plain showProc b c = .ok rows) :
+    mkRow plain errSpec n (some ['%']) eb ec ∈ rows := by
+  have hex := error_rate_in_task_block
+  rw [List.any_eq_true] at hex
+  obtain ⟨blk, hblk, hd⟩ := hex
+  cases blk with
+  | scalars r => simp at hd
+  | joined k gb gc r => simp at hd
+  | tasks specs =>
+    simp only [decide_eq_true_eq] at hd
+    rw [table_rows_iff CompareRows.blocks plain showProc b c rows h]
+    refine ⟨.tasks specs, hblk, _, rfl, ?_⟩
+    have hl : ∀ (op : Str) (tp : Scope) (t : List (Str × Val)) (e : Val),
+        lookup errSpec.key (opRecord n op tp t e).sc.vals = some e := by
+      intro op tp t e; simp [opRecord, errSpec, lookup]
+    exact task_metric_listed plain showProc specs b c hb hc _ _ hbt hct rfl errSpec hd rfl eb ec (hl ..) (hl ..)
+
 /-! ## non-vacuity: the hypotheses are satisfiable and the statements talk about real rows -/
 
 def gcCount : RowSpec := ⟨['k'], ['G', 'C'], .const [], false, .ident, false, false⟩
@@ -962,6 +1125,25 @@ example : (allSpecs CompareRows.blocks).length = 79 ∧
 example : (DCell.render ⟨.none, false, false, 0, 5, false⟩ = ['0', '.', '0', '0', '0', '0', '0']) ∧
     (DCell.render ⟨.none, false, true, 0, 2, true⟩ = ['-', '0', '.', '0', '0', '%']) ∧
     stripAnsi (DCell.render ⟨.green, true, false, 123456, 5, false⟩) = ['+', '1', '.', '2', '3', '4', '5', '6'] := by
+  decide
+/-- a task whose throughput statistics are all `None` in the contender (every request failed) and present in the
+    baseline: `summaryStats` gives no throughput leaves, the hypotheses of `error_rate_listed_without_throughput` /
+    `task_metric_listed` / `task_rows_exactly_once` hold, and the table lists exactly one row for the task – its error rate -/
+def recB : TaskM := opRecord ['q'] ['s'] (summaryStats (some (.int 9)) (some (.int 9)) (some (.int 8, .int 10)) (some ['o'])) [] (.int 0)
+def recC : TaskM := opRecord ['q'] ['s'] (summaryStats none none none (some ['o'])) [] (.int 1)
+def emptyLists : List (Str × Option (List Entry)) :=
+  CompareRows.blocks.filterMap (fun blk => match blk with
+    | .joined k _ _ _ => some (k, some [])
+    | _ => none)
+example : (summaryStats none none none (some ['o'])).vals = [] ∧ ([recB].map TaskM.name).Nodup ∧
+    (match metricsTable CompareRows.blocks true false ⟨⟨[], []⟩, [recB], emptyLists⟩ ⟨⟨[], []⟩, [recC], emptyLists⟩ with
+     | .ok rows => (rowsOfTask ['q'] rows).map (fun r => r.label)
+     | .error _ => []) = [errSpec.label] := by
+  refine ⟨rfl, by simp [recB, opRecord, TaskM.name], ?_⟩
+  decide
+/-- `scope_rows_count` / `row_depends_only_on_own_metric` on a concrete scope: one of two call sites present in both -/
+example : (scopeRows false false [gcCount, errSpec] [] (sc (.int 5)) (sc (.int 7))).length = 1 ∧
+    bothPresent (sc (.int 5)) (sc (.int 7)) gcCount = true ∧ bothPresent (sc (.int 5)) (sc (.int 7)) errSpec = false := by
   decide
 /-- the hypotheses of pct_swap_partial / pct_direction_partial are satisfiable (2 → 4) -/
 example : (Val.int 2).wf ∧ (Val.int 2).truthy = true ∧ (Val.int 2).toSM.neg = (Val.int 4).toSM.neg ∧ 0 < (Val.int 2).rat := by
